@@ -133,6 +133,56 @@ pub proof fn lemma_equal_names_only_for_the_same_work(a: Task, b: Task)
 '''
 
 
+TEXT_SPEC = r'''
+// ---- the names as the queue sees them: the TEXT the parts are concatenated to (IdentBuilder appends the pieces; no escaping) ----
+pub uninterp spec fn key_text(k: KeyIdentifier) -> Seq<char>;
+pub open spec fn part_text(p: Part) -> Seq<char> { match p { Part::Lit(s) => s, Part::Handle(s) => s, Part::Str(s) => s, Part::Key(k) => key_text(k) } }
+pub open spec fn text(ps: Seq<Part>) -> Seq<char> decreases ps.len() { if ps.len() == 0 { Seq::empty() } else { text(ps.drop_last()) + part_text(ps.last()) } }
+'''
+
+# KNOWN FINDING F22: this lemma is FALSE and is expected to fail.  Handles may contain '_' and the literal separators are plain text:
+#   sync_ + "a" + _with_parent_ + "b_with_parent_c"  ==  sync_ + "a_with_parent_b" + _with_parent_ + "c"
+#   sync_repo_ + "x_with_parent_y"                    ==  sync_ + "repo_x" + _with_parent_ + "y"
+# (replayed on the real code: findings/F21_F22_replay_test.diff).  The part-level lemma above holds; the gap is the step from part
+# lists to text, which the first version of this unit had ASSUMED ("an ident is determined by its parts").
+WITNESS = r'''
+/// machine-checked witness for F22: two DIFFERENT part lists of the SyncParent shape (CA "a" with parent "b_with_parent_c", CA
+/// "a_with_parent_b" with parent "c") concatenate to the SAME text
+pub proof fn lemma_two_sync_parent_names_one_text()
+    ensures ({
+        let pa = seq![lit("sync_"), Part::Handle("a"@), lit("_with_parent_"), Part::Handle("b_with_parent_c"@)];
+        let pb = seq![lit("sync_"), Part::Handle("a_with_parent_b"@), lit("_with_parent_"), Part::Handle("c"@)];
+        pa != pb && text(pa) == text(pb) })
+{
+    let pa = seq![lit("sync_"), Part::Handle("a"@), lit("_with_parent_"), Part::Handle("b_with_parent_c"@)];
+    let pb = seq![lit("sync_"), Part::Handle("a_with_parent_b"@), lit("_with_parent_"), Part::Handle("c"@)];
+    reveal_strlit("sync_"); reveal_strlit("a"); reveal_strlit("_with_parent_"); reveal_strlit("b_with_parent_c"); reveal_strlit("a_with_parent_b"); reveal_strlit("c");
+    reveal_with_fuel(text, 6);
+    let e = Seq::<char>::empty();
+    assert(pa.drop_last() =~= seq![lit("sync_"), Part::Handle("a"@), lit("_with_parent_")]);
+    assert(pa.drop_last().drop_last() =~= seq![lit("sync_"), Part::Handle("a"@)]);
+    assert(pa.drop_last().drop_last().drop_last() =~= seq![lit("sync_")]);
+    assert(pa.drop_last().drop_last().drop_last().drop_last() =~= Seq::<Part>::empty());
+    assert(pb.drop_last() =~= seq![lit("sync_"), Part::Handle("a_with_parent_b"@), lit("_with_parent_")]);
+    assert(pb.drop_last().drop_last() =~= seq![lit("sync_"), Part::Handle("a_with_parent_b"@)]);
+    assert(pb.drop_last().drop_last().drop_last() =~= seq![lit("sync_")]);
+    assert(pb.drop_last().drop_last().drop_last().drop_last() =~= Seq::<Part>::empty());
+    assert(text(pa) =~= e + "sync_"@ + "a"@ + "_with_parent_"@ + "b_with_parent_c"@);
+    assert(text(pb) =~= e + "sync_"@ + "a_with_parent_b"@ + "_with_parent_"@ + "c"@);
+    assert(text(pa) =~= text(pb));
+    assert(pa[1] != pb[1]) by { assert("a"@.len() == 1); assert("a_with_parent_b"@.len() == 15); }
+}
+'''
+
+TEXT_LEMMA = r'''
+pub proof fn lemma_equal_name_texts_only_for_the_same_work(a: Task, b: Task)
+    requires text(name_parts(a)) == text(name_parts(b))
+    ensures same_work(a, b)
+{
+}
+'''
+
+
 def build():
     U = Unit('c09_taskname', 'C09', 'Task::name follows the naming scheme, and the scheme gives equal names only to tasks that are the same work (the queue de-duplicates by name)')
     prelude.strings(U)
@@ -146,4 +196,7 @@ def build():
         U.fn(MQ, 'Task', 'name', ensures=[('follows_the_naming_scheme', 'cow_parts(r) == name_parts(*self)')]),
     ])
     U.lemma('equal_names_only_for_the_same_work', LEMMA)
+    U.add(TEXT_SPEC)
+    U.lemma('two_sync_parent_names_one_text', WITNESS)
+    U.lemma('equal_name_TEXTS_only_for_the_same_work', TEXT_LEMMA)
     return U
